@@ -24,13 +24,6 @@ theorem onMol_inv {p : Pool} (h : PoolInv p) (i : Nat) (f : Mol → Mol × Outco
   | none => exact h
   | some m => exact poolInv_set h i _ (hf m (poolInv_get h i m hm))
 
-/-- `Molecule.clear()` on a molecule that has an interaction with an atom is the one operation
-that leaves the reachable states of the invariant (finding F-C12-4); every other operation, and a
-`clear` of a molecule whose interactions have no atom, is safe -/
-def Op.safe (p : Pool) : Op → Bool
-  | .clear i => (p[i]?).all (fun m => decide (∀ ti ∈ m.inters, ti.2.atoms = []))
-  | _ => true
-
 theorem fromBlockStep_inv {p : Pool} (h : PoolInv p) (b : Block) (ao ro co : Int) :
     PoolInv (fromBlockStep p b ao ro co).1 := by
   unfold fromBlockStep
@@ -38,7 +31,16 @@ theorem fromBlockStep_inv {p : Pool} (h : PoolInv p) (b : Block) (ao ro co : Int
   | none => exact h
   | some m => exact poolInv_append h _ (toMolecule_inv' b ao ro co m hm)
 
-theorem step_inv {p : Pool} (h : PoolInv p) (op : Op) (hs : op.safe p = true) : PoolInv (step p op).1 := by
+theorem mergeOperand_inv {p : Pool} (h : PoolInv p) (i j : Nat) (b : Mol) (hb : mergeOperand p i j = some b) :
+    b.Inv := by
+  unfold mergeOperand at hb
+  split at hb
+  · cases hm : p[i]? with
+    | none => rw [hm] at hb; cases hb
+    | some m => rw [hm] at hb; cases hb; exact copy_inv (poolInv_get h i m hm)
+  · exact poolInv_get h j b hb
+
+theorem step_inv {p : Pool} (h : PoolInv p) (op : Op) : PoolInv (step p op).1 := by
   cases op with
   | addNode i k a => exact onMol_inv h i _ (fun m hm => addNode_inv hm k a)
   | addNodes i l => exact onMol_inv h i _ (fun m hm => addNodes_inv hm l)
@@ -62,13 +64,7 @@ theorem step_inv {p : Pool} (h : PoolInv p) (op : Op) (hs : op.safe p = true) : 
   | removeEdges i l => exact onMol_inv h i _ (fun m hm => dropEdges_inv hm l)
   | makeEdgesType i ty => exact onMol_inv h i _ (fun m hm => makeEdgesType_inv hm ty)
   | makeEdgesAll i => exact onMol_inv h i _ (fun m hm => makeEdgesAll_inv hm)
-  | clear i =>
-    simp only [step, onMol]
-    cases hm : p[i]? with
-    | none => exact h
-    | some m =>
-      simp only [Op.safe, hm, Option.all_some, decide_eq_true_eq] at hs
-      exact poolInv_set h i _ ((clear_inv_iff m).mpr hs)
+  | clear i => exact onMol_inv h i _ (fun m _ => clear_inv m)
   | addInter i ty atoms params version edge =>
     exact onMol_inv h i _ (fun m hm => addInter_inv hm ty atoms params version edge)
   | addOrReplace i ty atoms params version cites edge =>
@@ -95,14 +91,12 @@ theorem step_inv {p : Pool} (h : PoolInv p) (op : Op) (hs : op.safe p = true) : 
       | some s => exact poolInv_append h _ (subgraph_inv ks s hs)
   | merge i j =>
     simp only [step]
-    split
-    · exact onMol_inv h i _ (fun m hm => selfMerge_inv hm)
-    · cases ha : p[i]? with
+    cases ha : p[i]? with
+    | none => exact h
+    | some a =>
+      cases hb : mergeOperand p i j with
       | none => exact h
-      | some a =>
-        cases hb : p[j]? with
-        | none => exact h
-        | some b => exact poolInv_set h i _ (merge_inv (poolInv_get h i a ha) (poolInv_get h j b hb))
+      | some b => exact poolInv_set h i _ (merge_inv (poolInv_get h i a ha) (mergeOperand_inv h i j b hb))
   | newMol n ff =>
     apply poolInv_append h
     apply Mol.inv_of_wf_none _ rfl
@@ -116,32 +110,10 @@ theorem step_inv {p : Pool} (h : PoolInv p) (op : Op) (hs : op.safe p = true) : 
     | error e => exact h
     | ok b => exact fromBlockStep_inv h b ao ro co
 
-/-- a history in which every step is safe where it is applied -/
-def SafeRun (p : Pool) : List Op → Bool
-  | [] => true
-  | o :: t => o.safe p && SafeRun (step p o).1 t
-
-def Op.isClear : Op → Bool
-  | .clear _ => true
-  | _ => false
-
-theorem safe_of_not_clear (p : Pool) (op : Op) (h : op.isClear = false) : op.safe p = true := by
-  cases op <;> first | rfl | (simp [Op.isClear] at h)
-
-theorem safeRun_of_no_clear (p : Pool) (ops : List Op) (h : ∀ op ∈ ops, op.isClear = false) :
-    SafeRun p ops = true := by
-  induction ops generalizing p with
-  | nil => rfl
-  | cons o t ih =>
-    simp only [SafeRun, Bool.and_eq_true]
-    exact ⟨safe_of_not_clear p o (h o List.mem_cons_self), ih _ (fun op hop => h op (List.mem_cons_of_mem _ hop))⟩
-
-theorem run_inv {p : Pool} (h : PoolInv p) (ops : List Op) (hs : SafeRun p ops = true) : PoolInv (run p ops) := by
+theorem run_inv {p : Pool} (h : PoolInv p) (ops : List Op) : PoolInv (run p ops) := by
   induction ops generalizing p with
   | nil => exact h
-  | cons o t ih =>
-    simp only [SafeRun, Bool.and_eq_true] at hs
-    exact ih (step_inv h o hs.1) hs.2
+  | cons o t ih => exact ih (step_inv h o)
 
 /-! ### frame -/
 
@@ -173,12 +145,10 @@ theorem step_frame_target (p : Pool) (op : Op) (i : Nat) (h : op.target = some i
   rename_i j
   simp only [step]
   split
-  · exact onMol_frame p _ _
-  · split
-    · refine ⟨by simp [setAt], ?_⟩
-      intro k hk
-      exact List.getElem?_set_ne (fun e => hk e.symm)
-    · exact ⟨rfl, fun _ _ => rfl⟩
+  · refine ⟨by simp [setAt], ?_⟩
+    intro k hk
+    exact List.getElem?_set_ne (fun e => hk e.symm)
+  · exact ⟨rfl, fun _ _ => rfl⟩
 
 theorem fromBlockStep_append (p : Pool) (b : Block) (ao ro co : Int) :
     (fromBlockStep p b ao ro co).1 = p ∨ ∃ m, (fromBlockStep p b ao ro co).1 = p ++ [m] := by
@@ -279,11 +249,12 @@ theorem addOrReplace_err (m : Mol) (ty : String) (atoms : List Int) (params : St
         unfold Mol.addInter; rw [if_neg ha]
       rw [e]
 
-/-- the two ways a failing operation can still have changed the state (findings F-C12-5 / F-C12-6):
-a molecule merged into itself, and a merge whose newcomer has a log entry that mentions an atom
-the newcomer does not have.  Everything else is all-or-nothing. -/
+/-- the one way a failing operation can still have changed the state (observation F-C12-6): a
+merge whose newcomer (`mergeOperand`: the other molecule, or the snapshot of the molecule itself)
+has a log entry that mentions an atom the newcomer does not have.  Everything else is
+all-or-nothing. -/
 def Op.failSafe (p : Pool) : Op → Bool
-  | .merge i j => decide (i ≠ j) && (p[j]?).all (fun o => decide o.LogOk)
+  | .merge i j => (mergeOperand p i j).all (fun o => decide o.LogOk)
   | _ => true
 
 theorem fromBlockStep_err (p : Pool) (b : Block) (ao ro co : Int) (h : (fromBlockStep p b ao ro co).2 ≠ .ok) :
@@ -360,13 +331,12 @@ theorem step_err (p : Pool) (op : Op) (hfs : op.failSafe p = true) (h : (step p 
       · rename_i s hs; rw [hs] at h; exact absurd rfl h
       · rfl
   | merge i j =>
-    simp only [Op.failSafe, Bool.and_eq_true, decide_eq_true_eq] at hfs
-    obtain ⟨hij, hlog⟩ := hfs
-    simp only [step, if_neg hij] at h ⊢
+    simp only [Op.failSafe] at hfs
+    simp only [step] at h ⊢
     split
     · rename_i a b ha hb
       rw [ha, hb] at h
-      simp only [hb, Option.all_some, decide_eq_true_eq] at hlog
+      have hlog : b.LogOk := by simpa [hb] using hfs
       simp only [setAt]
       rw [merge_fst_of_err a b hlog h]; exact set_self p i a ha
     · rfl
